@@ -243,7 +243,7 @@ def c02(tier, seed):
              MaxOrders=3, MaxOps=4 if q else 5, need=("two_sided", "op_reload"), timeout=300 if q else 1500)
     cross(ck, q, "ties_deep", "ties_modify", "split_modify", "big_volumes")
     # every event of random histories: logged views = views recomputed by TLC from the logged order table alone
-    prof = {"discipline": True, "audit_every": 1, "w": {"toggle": 0.6, "reload": 0.4, "modify": 4}}
+    prof = {"discipline": True, "audit_every": 1, "p_high_prices": 0.3, "w": {"toggle": 0.6, "reload": 0.4, "modify": 4}}
     ck.traces_stage("rand_views", "record_book", prof, files=8 if q else 64, runs=3 if q else 6, ops=120)
     if not q:
         # a deep book: several hundred orders queued at one price level (level counts and order ids above 255), partial sweeps
@@ -442,7 +442,7 @@ def c12(tier, seed):
     env_gen(ck, "gen_env_grid_modify", kind="env", seeds=2, Ticks=(2,), Ops=["new", "modify", "step"], Kinds=["L"], Prices=[10], Vols=[1],
             ModPrices=[12, 13], ModVolsAbs=[-1], MaxSubmits=3, MaxBatch=3, MaxSteps=2, MaxOrders=2, need=("has_modify",), timeout=300)
     env_traces(ck, "rand_env_grid", {"p_offgrid": 0.3, "ticks": [2, 3, 4, 5, 7, 10], "max_batch": 10, "p_step": 0.12}, files=6 if q else 48, runs=3 if q else 6, ops=200)
-    prof = {"discipline": True, "audit_every": 5, "p_offgrid": 0.3, "ticks": [2, 3, 4, 5, 6, 7, 8, 9, 10], "w": {"modify": 4, "create": 4}}
+    prof = {"discipline": True, "audit_every": 5, "p_offgrid": 0.3, "p_high_prices": 0.3, "ticks": [2, 3, 4, 5, 6, 7, 8, 9, 10], "w": {"modify": 4, "create": 4}}
     ck.traces_stage("rand_grid", "record_book", prof, files=8 if q else 64, runs=2 if q else 4, ops=300)
     # arbitrary new prices in modify requests (known finding F3 lives here)
     prof = dict(prof, p_offgrid_modify=0.2)
